@@ -12,7 +12,7 @@ CHECKS = {
         category='model_checking',
         text='TLC enumerates every document of the bounded builder model (Dom.tla) and evaluates the declarative '
              'semantics CssDecl.tla on a selector pool; every state is replayed into soupsieve.select/match and the '
-             'result list must equal the predicted relation in document order. The composed front end Lexer.tla -> ParseSel.tla -> Ir!Compile computes the IR of randomly SPELLED selector texts; Trace_Parse accepts iff the real parser built exactly that IR. The recorded selects (on randomly respelled texts) are validated twice: against the declarative CssDecl (Trace_Select) and against the implementation-shaped pipeline computed entirely in TLA+ from the characters (Trace_Pipe: Lexer, ParseSel, Ir!Compile, Ir!AlgoList).',
+             'result list must equal the predicted relation in document order. The composed front end Lexer.tla -> ParseSel.tla -> Ir!Compile computes the IR of randomly SPELLED selector texts; Trace_Parse accepts iff the real parser built exactly that IR. The recorded selects (on randomly respelled texts) are validated twice: against the declarative CssDecl (Trace_Select) and against the implementation-shaped pipeline computed entirely in TLA+ from the characters (Trace_Pipe: Lexer, ParseSel, Ir!Compile, Ir!AlgoList). Parser-made trees (html.parser, lxml, html5lib, lxml-xml; text kept in NavigableString subclasses, camelCase SVG / MathML names) are projected back and validated the same way; attribute values include regular-expression metacharacters, quotes and backslashes.',
         design_ref='§6 C01',
         note='Bounded: trees <= 4-5 nodes, selector pools per configuration; CssDecl.tla trusted as reading of '
              'Selectors 3/4; documents built through the bs4 API.',
@@ -35,7 +35,7 @@ CHECKS = {
              '(prefix/limit, never-self, never-document) and enumerates all trees <= 3-4 nodes x entry point x target x limit x '
              'presence of namespaces/custom; each predicted outcome is replayed into the module-level function (keyword and '
              'positional) and into compile(...).method(...), with and without DEBUG; recorded random calls are validated by TLC '
-             '(Trace_Api).',
+             '(Trace_Api). The same calls are validated a second time as views of the relation the implementation-shaped pipeline computes from the randomly respelled selector TEXT (Trace_ApiPipe); documents with iframe content; selectors no element satisfies must never yield the document object.',
         design_ref='§6 C03',
         note='Bounded: trees <= 4 nodes exhaustively, random trees <= 12 nodes in traces; 10-selector pool chosen to make '
              'every optional argument observable.',
@@ -48,7 +48,7 @@ CHECKS = {
              'html5lib; meta language, iframes, radio groups, forms) x 20 selectors; the real code executes them and History.tla '
              '- a law-level trace spec in which the match relation is an unlogged variable inferred by TLC - accepts iff one '
              'relation (seeded by a pristine re-parse asked element by element) explains every observation and the document '
-             'serialisation, node identities and attributes never changed.',
+             'serialisation, node identities and attributes never changed. An alone part compares select on the document and on subtrees with match on each element alone, exhaustively over the pools; a mutation part changes the tree through the bs4 API between two queries and compares with a pristine parse of the changed tree (Session.tla: Mutate, table lifetime; process-lifetime tables refuted as a negative model).',
         design_ref='§6 C04',
         note='Histories: exhaustive pairs over reduced pools, sampled up to length 6-8; fixed document/selector pools chosen for '
              'the memoised facts; observations compared through abstract node positions.',
@@ -73,7 +73,7 @@ CHECKS = {
              'patterns (so the real lru_cache(500) is observed as K=2); after every step cache_info() must equal the model state, the '
              'object must equal a fresh parse, == / hash must agree with model-key equality for every pair returned so far '
              '(including keys equal up to map insertion order), and every IR node must be hashable, reject setattr/delattr, and '
-             'survive pickle/copy/deepcopy with equal select results. Caller-value part: the dictionaries passed to compile are mutated afterwards, the pattern text must be kept as given and different texts are different values.',
+             'survive pickle/copy/deepcopy with equal select results. Caller-value part: the dictionaries passed to compile are mutated afterwards, the pattern text must be kept as given and different texts are different values. Selectors compiled from distinct patterns are pairwise unequal also where hash() collides; every pickle protocol; maps given as OrderedDict / list of pairs; the same dict objects changed in place and passed again.',
         design_ref='§6 C15',
         note='LRU bound observed through blocks (all-or-nothing); 5 model keys differing in one argument each + order variants; '
              'bool-vs-int flags and attribute-level access to the internal mapping objects are not gated.',
@@ -86,7 +86,7 @@ CHECKS = {
              'placement (negative model). Every behaviour TLC enumerates is replayed deterministically: a sys.settrace controller '
              'parks real threads at exactly those points and releases them in the behaviour\'s order; each call must return its '
              'single-threaded value and the cache must hold fresh parses. In addition one thread is pre-empted at Python line events '
-             '(compile, select, match, filter pairs) by a second thread running to completion. Every bounded memo of the library is filled before the replays (capacity state), alias definitions carry salted attribute names, and the pairs that go through shared mutable state are pre-empted at every line in both tiers; a single-threaded call that fails after an interleaving counts as corrupted shared state.',
+             '(compile, select, match, filter pairs) by a second thread running to completion. Every bounded memo of the library is filled before the replays (capacity state), alias definitions carry salted attribute names, and the pairs that go through shared mutable state are pre-empted at every line in both tiers; a single-threaded call that fails after an interleaving counts as corrupted shared state. LazyInit.tla states process start-up as a state (eager / idempotent builds hold T-FirstUse, the unguarded lazy build is refuted); a cold-start part pre-empts the FIRST compile of a fresh interpreter at every line of the functions through which shared objects are reached (every third line elsewhere; every line in the thorough tier) while a second thread makes its first call; process-wide interpreter state is compared around every replay; 40-level nested selectors and documents needing different calendar facts are among the pre-emption pairs.',
         design_ref='§6 C14',
         note='2 threads x 1-2 calls (quick), 3 threads / 2 calls with bounded switches (thorough); line-level pre-emption with one '
              'pre-emption; races inside a single bytecode or inside C code (lru_cache, re) cannot be forced from Python.',
@@ -99,7 +99,7 @@ CHECKS = {
              'reflexivity, prefix ranges, * vs empty, inheritance equations) and enumerates all range x tag pairs of subtag length <= 3-4 '
              'over {de,en,x,latn,*,""} and all determination situations (chains <= 3-4 x 5 attribute states x 5 pragma states x iframe '
              'position x 4 document modes); every predicted relation is replayed into soupsieve.select; seeded random selects over a larger '
-             'alphabet are recorded from the code and validated by TLC (Trace_Select).',
+             'alphabet are recorded from the code and validated by TLC (Trace_Select). Ranges with empty subtags against well-formed tags; a plain XML root around XHTML elements (xmlmix) and a foreign element named iframe (mixedf) among the document modes.',
         design_ref='§6 C13',
         note='Bounded: subtag lists <= 4 (B1) / <= 6 (B2), chains <= 4, single-rooted API-built documents, one pragma per document; the '
              'pragma of a document nested in an iframe is recorded as drift (property does not decide it); Lang.tla trusted as the reading of RFC 4647.',
@@ -124,7 +124,7 @@ CHECKS = {
              'reachable from module-level calls). TLC checks T-ImportSafe for every entry script (8 import forms, all ordered sequences of '
              'length <= 2-3) and prints each script\'s predicted outcome and module begin/end order; every script is run in a fresh '
              'interpreter (clean: exit status, exception, output, warnings, BeautifulSoup.select == soupsieve.select == same for every '
-             'order) and once with a sys.meta_path logger whose recorded order is compared with the model\'s. Every entry statement is also run under the interpreter configurations -O, -OO, -X dev, -W error, -B.',
+             'order) and once with a sys.meta_path logger whose recorded order is compared with the model\'s. Every entry statement is also run under the interpreter configurations -O, -OO, -X dev, -W error, -B. Process-wide state (warnings filters, recursion limit, environment, locale, logging, signal handlers, sys.path ...) is checkpointed at every module begin / end by the import logger and a change is blamed on the innermost executing module; Imports.tla has the corresponding step (op ambient) extracted from module-level statements.',
         design_ref='§6 C16',
         note='Verdict comes from the interpreter run; model/interpreter disagreements are recorded as drift (static extraction is an '
              'over-approximation). CPython 3.12, bs4 4.15 as installed; reload/zipimport/frozen are out.',
@@ -158,7 +158,7 @@ CHECKS = {
              'values only on class/id/t) x context (rooted, detached, several top-level nodes, foreign namespace, inside iframe, XHTML) and every '
              'pair (type value, other attribute); ~100 selectors taken from the parser\'s own pseudo-class tables are run through every entry '
              'point on every element; oracle = outcome class (TypeError iff the target is not a Tag). The order of match_* calls recorded with '
-             'sys.setprofile is validated against MatchOrder by TLC.',
+             'sys.setprofile is validated against MatchOrder by TLC. A depth pump runs the selector pool over seven documents nested 1 200 (quick) / 3 000 (thorough) levels deep - beyond the interpreter recursion limit - and over element-less documents with the BeautifulSoup object as call target.',
         design_ref='§6 C08',
         note='One or two attributes per element; documents of 3-5 nodes; nesting far below the recursion budget.',
         technique='TLA+ definedness model (positive + negative) checked by TLC; TLC-enumerated element shapes replayed through all entry points; recorded check order validated'),
@@ -202,7 +202,7 @@ CHECKS = {
              'corrupted selectors are validated by TLC (Trace_C20). Pretty.tla models the pretty-printer token loop; TLC proves NoStuck / Terminates '
              '(liveness) / StepAdvances on a bounded repr grammar for the repaired token rules and must refute them for the as-is rules (three '
              'negative configurations); the real pretty() runs on ~280 compiled selectors under a deterministic line-event budget and must equal '
-             'repr modulo whitespace; DEBUG is checked differentially on ~200 selectors x 3 documents and every recorded error.',
+             'repr modulo whitespace; DEBUG is checked differentially on ~200 selectors x 3 documents and every recorded error. The error-context enumeration also runs over an alphabet with characters that are not line breaks (FF, VT, NEL, LS, PS); the pretty pool has quote- and backslash-heavy values and a wall-clock watchdog besides the line-event budget.',
         design_ref='§6 C20',
         note='Patterns <= 6-8 over a 3-symbol alphabet, e2e patterns <= ~60 characters; offsets on the LF of a CR LF pair and the literal '
              'context format are drift only; non-termination is a settrace budget (300-2000 x len line events), not a proof about the Python loop.',
@@ -227,7 +227,7 @@ CHECKS = {
              'ISO definition, 52/53 weeks, 71 long years per cycle, total orders, midnight wrap) and enumerates ~34k (thorough ~162k) <input> '
              'elements as document states with the predicted sets: weeks for years 1..800 + digit-length representatives, day/month grid, hours, '
              'minutes, every single-character mutation of a seed string per type, all 8^3 (min,max,value) triples per type; every gated '
-             'membership is compared with soupsieve; seeded random selects are recorded and accepted/rejected by TLC (Trace_C18).',
+             'membership is compared with soupsieve; seeded random selects are recorded and accepted/rejected by TLC (Trace_C18). T-Sign (the sign is orthogonal to validity) is a TLC theorem and is run on the code over 24 number shapes x min / max / value; a bound of 5 000 digits that can never be exceeded must leave the decision to the other bound.',
         design_ref='§6 C18',
         note='Open known finding F18 (week 53 accepted when 31 Dec lies in week 1 of the next year; pinned by the repository tests) is suppressed '
              'only where the observed answer equals the spec with that single rule switched on; exponent / bare-dot numbers, seconds, XML type '
